@@ -126,3 +126,40 @@ def run(ctx, rnd):
             from chameleon.exc import TemplateError
             if not isinstance(e, TemplateError):
                 ctx.violation("i18n: %r raised %s, not a TemplateError" % (src, type(e).__name__), dict(kind="i18n-extra", source=src))
+
+
+def per_render(ctx):
+    """the translation function (and target language) of a rendering are those passed to THAT rendering: on one template
+    object, with and without an encoding, constructor default or render argument"""
+    import sys
+    sys.path.insert(0, REPO_SRC)
+    from chameleon import PageTemplate
+
+    def mk(tag):
+        def tr(msgid, domain=None, mapping=None, context=None, target_language=None, default=None):
+            return "%s(%s|%s)" % (tag, msgid if isinstance(msgid, str) else "obj", target_language)
+        return tr
+    src = '<p i18n:translate="">Hello</p><a title="T" i18n:attributes="title">k</a>${m}'
+
+    class Msg:
+        def __str__(self):
+            return "msg"
+    for ctor in ({}, {"encoding": "utf-8"}, {"translate": mk("C")}, {"translate": mk("C"), "encoding": "latin-1"}):
+        t = PageTemplate(src, **ctor)
+        seq = [dict(translate=mk("A")), dict(translate=mk("B"), target_language="de"), dict(translate=mk("A"), encoding="utf-8"),
+               dict(translate=mk("B"), encoding="utf-8", target_language="fr"), dict(), dict(translate=mk("D"), encoding="latin-1")]
+        for kw in seq:
+            ctx.replays += 1
+            tag = "C" if "translate" not in kw and "translate" in ctor else None
+            if "translate" in kw:
+                tag = kw["translate"]("x")[0]
+            lang = kw.get("target_language")
+            got = t(m=Msg(), **kw)
+            if tag is None:
+                continue          # the default translation function: nothing to tell renderings apart
+            want = "<p>%s(Hello|%s)</p><a title=\"%s(T|%s)\">k</a>%s(obj|%s)" % (tag, lang, tag, lang, tag, lang)
+            if got != want:
+                ctx.violation("i18n: one template object (constructed with %s) rendered with %s returns %r, expected %r: every rendering "
+                              "uses the translation function and target language given to it" % (sorted(ctor), sorted(kw), got, want),
+                              dict(kind="i18n-per-render", source=src))
+                return
